@@ -252,7 +252,8 @@ def _harness_fn(req):
 # --------------------------------------------------------------------------
 class Task:
     __slots__ = ("idx", "ops", "gate", "cnt", "trig", "tp", "done", "cur_op",
-                 "rlimit", "faulted", "thread", "injected", "blocked_on", "deadlocked")
+                 "rlimit", "faulted", "thread", "injected", "blocked_on", "deadlocked",
+                 "last_result", "last_unstored")
 
     def __init__(self, idx, ops):
         self.idx = idx
@@ -270,6 +271,8 @@ class Task:
         self.thread = None
         self.blocked_on = None
         self.deadlocked = False
+        self.last_result = None
+        self.last_unstored = False
 
 
 class Sim:
@@ -494,6 +497,68 @@ class Sim:
             self.stats["gc_collects"] += 1
             self.rec("dropclass", me.idx, k, list(op["names"]))
             self.rec("gc", me.idx, k)
+        elif kind == "mk":
+            # a mutable object the caller owns (a bytearray buffer, a list of keys)
+            try:
+                self.regs[op["out"]] = C.rebuild(op["value"])
+                self.reg_digest[op["out"]] = C.digest(C.canon(self.regs[op["out"]]))
+            except C.Unbuildable:
+                pass
+            self.rec("mk", me.idx, k, op["out"])
+        elif kind == "mutate_reg":
+            # ... and changes itself between two library calls (its own object!)
+            o = self.regs.get(op["reg"])
+            done = False
+            try:
+                if isinstance(o, bytearray) and op["how"] == "set":
+                    o[:] = bytes.fromhex(op["payload"])
+                    done = True
+                elif isinstance(o, list) and op["how"] == "append":
+                    o.append(C.rebuild(op["payload"]))
+                    done = True
+                elif isinstance(o, list) and op["how"] == "pop" and o:
+                    o.pop()
+                    done = True
+                elif isinstance(o, list) and op["how"] == "reverse":
+                    o.reverse()
+                    done = True
+            except C.Unbuildable:
+                pass
+            if done:
+                self.reg_digest[op["reg"]] = C.digest(C.canon(o))
+            self.rec("mutate_reg", me.idx, k, op["reg"], done)
+        elif kind == "mutate_last":
+            # the caller modifies a container it was handed as a result (legitimate for
+            # a list / bytearray / dict / set you received); only results that are not
+            # kept in a register are touched
+            o = me.last_result
+            done = False
+            if me.last_unstored and type(o) in (list, bytearray, dict, set):
+                how = op.get("how", "pop")
+                try:
+                    if not len(o):
+                        # an empty container: the caller puts something into it
+                        if type(o) is list:
+                            o.append(None)
+                        elif type(o) is bytearray:
+                            o.append(0)
+                        elif type(o) is dict:
+                            o["caller"] = 0
+                        else:
+                            o.add(0)
+                    elif how == "clear" or type(o) in (dict, set):
+                        o.clear()
+                    elif how == "reverse" and type(o) is list and len(o) > 1 and o[0] is not o[-1]:
+                        o.reverse()
+                    else:
+                        o.pop()
+                    done = True
+                except Exception:
+                    done = False
+            me.last_result = None
+            self.stats["results_mutated_by_caller"] = \
+                self.stats.get("results_mutated_by_caller", 0) + (1 if done else 0)
+            self.rec("mutate_last", me.idx, k, done)
         elif kind == "gc":
             n = gc.collect()
             self.stats["gc_collects"] += 1
@@ -576,6 +641,8 @@ class Sim:
         if bad:
             self.violation("I6", me.idx, k, {"what": bad}, fnk)
         out = op.get("out")
+        me.last_result = res if outcome[0] == "ret" else None
+        me.last_unstored = not out
         if out:
             if outcome[0] == "ret" and not me.faulted:
                 self.regs[out] = res
@@ -650,6 +717,13 @@ class Sim:
             gc.disable()
         if knobs.get("recursion_limit_after_import"):
             sys.setrecursionlimit(int(knobs["recursion_limit_after_import"]))
+        for n, v in (knobs.get("env") or {}).items():
+            os.environ[n] = v
+        if knobs.get("cwd"):
+            try:
+                os.chdir(knobs["cwd"])
+            except OSError:
+                pass
         self.base_rlimit = sys.getrecursionlimit()
         lockseam.SIM = self
         if spec.get("monitor") != "off":
